@@ -331,18 +331,23 @@ def run(tier, seed):
     good_tx = [o for i, o in enumerate(obs) if i not in badset and o["k"] == "tx" and o["back"] and o["back"][-1]]
     st = {}
     for name, pool in (("rt", good_rt), ("tx", good_tx)):
-        if not pool:
-            raise vlib.Inconclusive("no conforming %s observation to corrupt" % name)
+        if not pool:            # a tree that breaks the property may leave none: the violations are the verdict then
+            st[name] = {"ok": None, "why": "no conforming %s observation to corrupt" % name}
+            continue
         a = json.loads(json.dumps(pool[len(pool) // 2]))
         corrupt(a)
         b, _, _ = validate([a, pool[len(pool) // 2]])
         st[name] = {"ok": [z[0] for z in b] == [0], "reported": [z[0] for z in b]}
-    c = json.loads(json.dumps(next(o for o in good_rt if o["f"] == "csv" and o["text"])))
-    c["text"] = c["text"][:-1] + ["Q"]         # the standard reader must object to a mangled text
-    b, _, _ = validate([c])
-    st["std"] = {"ok": [z[0] for z in b] == [0] and "std" in b[0][1]["whys"]}
+    c0 = next((o for o in good_rt if o["f"] == "csv" and o["text"]), None)
+    if c0 is None:
+        st["std"] = {"ok": None, "why": "no conforming CSV observation to corrupt"}
+    else:
+        c = json.loads(json.dumps(c0))
+        c["text"] = c["text"][:-1] + ["Q"]         # the standard reader must object to a mangled text
+        b, _, _ = validate([c])
+        st["std"] = {"ok": [z[0] for z in b] == [0] and "std" in b[0][1]["whys"]}
     cov["obs_selftest"] = st
-    if not all(z["ok"] for z in st.values()):
+    if any(z["ok"] is False for z in st.values()):
         raise vlib.Inconclusive("observation self-test failed: %r" % st)
 
     nontrivial = {json.dumps([o["f"], o["v"], o["text"]]) for o in obs
